@@ -13,6 +13,8 @@ import Acra.Gen.Src.Cls.PTPTime
 import Acra.Gen.Src.Cls.RTCTime
 import Acra.Gen.Src.Cls.UDP
 import Acra.Gen.Src.Cls.PcapRecord
+import Acra.Gen.Src.Cls.MPEGAdaptionExtension
+import Acra.Model.MPEGTS
 import Acra.Gen.Src.Cls.IENA
 import Acra.Model.IENA
 import Acra.Gen.Src.Cls.ICMP
@@ -206,5 +208,44 @@ theorem ofModel_toModel (o : Obj) (h : Dom o) : ofModel (toModel o) = o := by
   simp only [toModel, ofModel] at *
   simp only [Int.toNat_of_nonneg, h1, h2, h3, h4]
 end ICMP
+
+/-! ### MPEGAdaptionExtension (MPEGTS.py) — model `Model.MPEGTS.Ext`; no int attributes: the correspondence is a bijection
+    and the ties hold for EVERY object -/
+namespace MPEGAdaptionExtension
+abbrev Obj := Gen.Src.Cls.MPEGAdaptionExtension.Obj
+def toModel (o : Obj) : Model.MPEGTS.Ext :=
+  { ltw_flag := o.ltw_flag, piecewise_rate_flag := o.piecewise_rate_flag, seamless_splice_flag := o.seamless_splice_flag,
+    ltw := o.ltw, piecewise := o.piecewise, seamless_splice := o.seamless_splice }
+def ofModel (s : Model.MPEGTS.Ext) : Obj :=
+  { ltw_flag := s.ltw_flag, piecewise_rate_flag := s.piecewise_rate_flag, seamless_splice_flag := s.seamless_splice_flag,
+    ltw := s.ltw, piecewise := s.piecewise, seamless_splice := s.seamless_splice }
+@[simp] theorem toModel_ofModel (s : Model.MPEGTS.Ext) : toModel (ofModel s) = s := rfl
+@[simp] theorem ofModel_toModel (o : Obj) : ofModel (toModel o) = o := rfl
+
+theorem ext_flags (b1 b2 b3 : Bool) :
+    (31 + Py.shl (if b1 = true then 1 else 0) 7 + Py.shl (if b2 = true then 1 else 0) 6
+        + Py.shl (if b3 = true then 1 else 0) 5 : Int)
+      = ((0x1F + b1.toNat * 128 + b2.toNat * 64 + b3.toNat * 32 : Nat) : Int) := by
+  cases b1 <;> cases b2 <;> cases b3 <;> decide
+
+theorem ext_len (a b c : Nat) : (2 + (a : Int) + (b : Int) + (c : Int)) = ((2 + a + b + c : Nat) : Int) := by omega
+
+theorem structPackI_two (f : Fmt) (a b : Nat) : structPackI f [(a : Int), (b : Int)] = structPack f [a, b] :=
+  structPackI_cast f [a, b] _ rfl
+
+theorem structPackI_lit2 (f : Fmt) (a b : Nat) :
+    structPackI f [(no_index (OfNat.ofNat a) : Int), (no_index (OfNat.ofNat b) : Int)]
+      = structPack f [OfNat.ofNat a, OfNat.ofNat b] :=
+  structPackI_cast f [a, b] _ rfl
+
+/-- the flag bit `(flags >> k) & 1` as the model computes it -/
+theorem flag_bit (flags : Nat) (k : Nat) :
+    (decide (Py.band (Py.shr (flags : Int) (k : Int)) 1 ≠ 0)) = (flags / 2 ^ k % 2 == 1) := by
+  simp only [shr_natCast, band_natCast_lit, Int.toNat_natCast, Nat.shiftRight_eq_div_pow, Nat.and_one_is_mod]
+  by_cases h : flags / 2 ^ k % 2 = 1
+  · simp [h]
+  · have : flags / 2 ^ k % 2 = 0 := by omega
+    simp [this]
+end MPEGAdaptionExtension
 
 end Acra.Lemmas.SrcTieCls
